@@ -379,3 +379,20 @@ func VerifContinuation(args []string) {
 
 // VerifShape exports the harness's structural fingerprint for harnesses of other packages.
 func VerifShape(n ast.Node) string { return verifShapeOf(n, true) }
+
+func init() {
+	verifHarness["VerifParseShape"] = VerifParseShape
+}
+
+// VerifParseShape: the text parses without error to the tree the documented precedence and (left)
+// associativity prescribe. args: text, expected fingerprint
+func VerifParseShape(args []string) {
+	p := verifNew(args[0], false)
+	prog := p.ParseProgram()
+	vAssert(len(p.Errors()) == 0, "precedence/does-not-parse#"+args[0])
+	if len(p.Errors()) != 0 {
+		return
+	}
+	vReach("parsed")
+	vAssert(verifShapeOf(prog, true) == args[1], "precedence/tree-shape#"+args[0])
+}
